@@ -6,7 +6,7 @@ def obligations(tier):
     quick = tier == "quick"
     return [
         k_api.obligation(tier, {"C09"}, "O9.3 end to end: QuantitativeDiscretizer/Discretizer buckets hold >= min_freq/2 of the rows unless one remains; NaN separate",
-                         ["QuantitativeDiscretizer", "Discretizer"], ns=[4, 5] if quick else [4, 5, 6], max_pats=3 if quick else 6,
+                         ["QuantitativeDiscretizer", "Discretizer"], ns=[4] if quick else [4, 5, 6], max_pats=3 if quick else 6,
                          param_grid=[dict(min_freq=0.5), dict(min_freq=0.25), dict(min_freq=0.2)] + ([] if quick else [dict(min_freq=0.34), dict(min_freq=0.15)])),
         k_ordinal.obligation(tier, {"C09"}, "O9.1 ordinal buckets hold >= min_freq of the rows (or one bucket remains); NaN stays its own modality; min_freq symbolic in (0,0.5]"),
         k_quantiles.obligation(tier, {"C09", "C03"}, "O9.2 ContinuousDiscretizer boundaries: strictly increasing observed values then +inf; frequent values are boundaries; bucket-size bound",
